@@ -377,7 +377,14 @@ func (c *wctx) strictCheck(caseID, origin string, p models.Point, witness func()
 			return "", false
 		}
 		for i, ch := range key {
-			if ch == '\n' && (i == 0 || key[i-1] != '\\') {
+			if ch != '\n' {
+				continue
+			}
+			run := 0
+			for j := i - 1; j >= 0 && key[j] == '\\'; j-- {
+				run++
+			}
+			if run%2 == 0 { // not escaped under the pairing rule of the line splitter
 				kind, raw = "newline-in-key", key
 			}
 		}
